@@ -34,7 +34,15 @@ IHave_ask2 == {<<"p2", <<"m1">>>>, <<"p2", <<"m2">>>>, <<"p2", <<"m3">>>>, <<"p2
 \* ---- ask3 (MaxIHaveLength 5, MaxIHaveMessages 4): three and more batches of three invented ids from ONE peer in
 \*      ONE heartbeat interval - the running total per heartbeat matters, not the latest batch
 IHave_ask3 == {<<"p2", <<"x1", "x2", "x3">>>>, <<"p2", <<"x4", "x5", "x6">>>>, <<"p2", <<"x7", "x8", "x9">>>>,
-               <<"p2", <<"x1", "x2">>>>, <<"p2", <<"x4", "x5">>>>, <<"p3", <<"x1", "x2", "x3">>>>}
+               <<"p2", <<"x1", "x2">>>>, <<"p2", <<"x4", "x5">>>>, <<"p3", <<"x1", "x2", "x3">>>>,
+               <<"p2", <<"x1", "x2", "x3", "x4", "x5", "x6", "x7", "x8", "x9">>, <<3, 3, 3>>>>}
+\* ---- multi: ONE RPC with SEVERAL control entries of a kind, each within its bound, together beyond it
+\*      (MaxIDontWantLength 2, MaxIHaveLength 2, GossipRetransmission 2)
+Acc_multi   == {<<"m1", "p1">>, <<"m3", "p3">>}
+IDW_multi   == {<<"p2", <<"m1", "m2", "m3", "m4">>, <<2, 2>>>>, <<"p2", <<"m2", "m3", "m1">>, <<1, 1, 1>>>>,
+                <<"p2", <<"m4", "m3">>, <<1, 1>>>>, <<"p2", <<"m3", "m4", "m1">>>>}
+IWant_multi == {<<"p2", <<"m1", "m1", "m1">>, <<1, 1, 1>>>>, <<"p2", <<"m3", "m1", "m3">>, <<2, 1>>>>, <<"p2", <<"m3">>>>}
+IHave_multi == {<<"p2", <<"m2", "m3", "m4">>, <<1, 1, 1>>>>, <<"p2", <<"m1", "m2", "m4", "m3">>, <<2, 2>>>>, <<"p3", <<"m2", "m4">>, <<1, 1>>>>}
 \* ---- promises: kept by the promiser, by a third party, late, never
 Acc_prom   == {<<"m1", "p1">>, <<"m1", "p2">>}
 IHave_prom == {<<"p2", <<"m1">>>>, <<"p3", <<"m1", "m2">>>>}
